@@ -22,7 +22,16 @@ class Interner:
         if k is None:
             k = "s%d" % len(self.tab)
             self.tab[b] = k
-            self.defs.append("Definition %s : str := [%s]%%N." % (k, ";".join(str(c) for c in b)))
+            if len(b) <= 4000:
+                self.defs.append("Definition %s : str := [%s]%%N." % (k, ";".join(str(c) for c in b)))
+            else:
+                # a list literal of tens of thousands of elements overflows coqc's stack: chunks, appended
+                parts = []
+                for j in range(0, len(b), 4000):
+                    pn = "%s_%d" % (k, j // 4000)
+                    parts.append(pn)
+                    self.defs.append("Definition %s : str := [%s]%%N." % (pn, ";".join(str(c) for c in b[j:j + 4000])))
+                self.defs.append("Definition %s : str := (%s)%%list." % (k, " ++ ".join(parts)))
         return k
 
     def preamble(self):
